@@ -4,6 +4,7 @@ The decision procedure is summarised by abstract interpretation into one boolean
 term over named atoms; its complete truth table is compared with an independently
 written formula of the documented rule (exhaustive over the abstract space)."""
 import itertools
+import os
 
 from ..core import AnalysisError
 from ..interp import Interpreter, Instance
@@ -243,7 +244,10 @@ def check_options(rep, prog):
         dest = cli.options.get(opt)
         ok = dest is not None and cli.options.get(long_names[opt]) == dest
         sts = by_attr.get(attr, [])
-        ok = ok and len(sts) == 1 and sts[0][0] == Const(True) and sts[0][1] == cli.arg(dest)
+        # `if args.x: config.x = True`  or  `config.x = bool(args.x)` (Config starts with False): either way the attribute is
+        # True exactly under the switch
+        ok = ok and len(sts) == 1 and ((sts[0][0] == Const(True) and sts[0][1] == cli.arg(dest)) or
+                                       (sts[0][1] == TRUE and sts[0][0] == Op("truthy", cli.arg(dest))))
         rep.check(ok, "C07.R4.options", "%s/%s sets exactly Config.%s" % (opt, long_names[opt], attr), "main", "config.%s = True" % attr,
                   "switch %s (dest %r) does not set Config.%s = True under exactly that switch: %s" % (
                       opt, dest, attr, [(repr(v), repr(g)[:60]) for v, g, e in sts]))
@@ -258,7 +262,11 @@ def check_options(rep, prog):
     sdest = cli.options.get("-S")
     sev_list = I.obj(cli.config).attrs.get("severities") if cli.config is not None else None
     ext = [e for e in cli.events if e.kind == "extend" and e.data[0] == sev_list]
-    ok = sdest is not None and len(ext) == 1 and cli.norm(e_guard(ext[0])) == cli.arg(sdest)
+    guarded = sdest is not None and len(ext) == 1 and cli.norm(e_guard(ext[0])) == cli.arg(sdest)
+    # `if args.s: extend(table[x] for x in args.s)`  or, unconditionally,  `extend(table[x] for x in args.s or ())`
+    ok = guarded or (sdest is not None and len(ext) == 1 and cli.norm(e_guard(ext[0])) == TRUE)
+    if os.environ.get("DBG_C07") and ext:
+        print("DBG", repr(cli.norm(e_guard(ext[0])))[:200], [repr(cli.norm(i[1].iter))[:300] for i in (list_items(I, ext[0].data[1]) or []) if i[0] == "rep"])
     if ok:
         items = list_items(I, ext[0].data[1])
         ok = items is not None and len(items) == 1 and items[0][0] == "rep"
@@ -266,7 +274,7 @@ def check_options(rep, prog):
             L, term = items[0][1], cli.norm(items[0][2])
             tl = term if isinstance(term, Op) and term.op == "getitem" else None
             ok = tl is not None and table_of(I, tl.args[0]) == spec_table("severityGroupValues") and \
-                cli.norm(L.iter) == cli.arg(sdest) and tl.args[1] == Op("elem", cli.arg(sdest), L.idx) and not L.breaks
+                _sev_iter_ok(cli, L, sdest, guarded) and tl.args[1] == Op("elem", cli.norm(L.iter), L.idx) and not L.breaks
         cfgo = I.obj(cli.config)
         ok = ok and ext[0].data[0] == cfgo.attrs.get("severities")
     rep.check(ok, "C07.R4.options", "-S adds severityGroupValues[name] for every chosen name to Config.severities", "main",
@@ -284,6 +292,15 @@ def check_options(rep, prog):
     sv = I.get_attr(I.get_attr(I.global_value("pel.peltool.pel_types", "SeverityValues"), "critSysTermSeverity"), "value")
     rep.check(sv == Const(0x51), "C07.R2.atoms", "terminating severity constant = 0x51", "pel_types.SeverityValues", "critSysTermSeverity",
               "critSysTermSeverity is %r" % (sv,))
+
+
+def _sev_iter_ok(cli, L, sdest, guarded):
+    a = cli.arg(sdest)
+    it = cli.norm(L.iter)
+    if guarded:
+        return it == a
+    # not guarded by the option: the names iterated are the option's value, or nothing when it was not given
+    return isinstance(it, Ite) and it.c in (a, Op("truthy", a)) and it.a == a and it.b in (Const(()), Const([]), NONE) and it.b != NONE
 
 
 def e_guard(e):
